@@ -587,8 +587,8 @@ func TestVerif(t *testing.T) {
 			}
 			if len(outside) > 0 {
 				key := format + "-escape"
-				if format == "zip" && hasDotDot {
-					key = "zip-slip-no-destination-check"
+				if hasDotDot {
+					key = format + "-escape-dotdot"
 				}
 				viol(key, fmt.Sprintf("created outside the destination: %v", outside), format, a.class, destArg, es, ok, errs, tree)
 			}
@@ -627,9 +627,6 @@ func TestVerif(t *testing.T) {
 			}
 			if escaping && ok {
 				key := format + "-escaping-entry-accepted"
-				if format == "zip" {
-					key = "zip-slip-no-destination-check"
-				}
 				viol(key, "an entry that leaves the destination was not rejected", format, a.class, destArg, es, ok, errs, tree)
 			}
 			// (c) well-formed archives are reproduced exactly
@@ -650,14 +647,16 @@ func TestVerif(t *testing.T) {
 					}
 				}
 				if !same {
+					// narrower keys for the shapes of the four repaired defects (F14), so that a
+					// regression is reported by name
 					key := format + "-wellformed-not-reproduced"
 					switch {
-					case format == "zip" && a.class == "wf-implicit-parents" && !ok && strings.Contains(errs, "no such file or directory"):
-						key = "zip-no-parent-dirs"
-					case format == "tar" && a.class == "wf-dot-slash-root" && !ok && strings.Contains(errs, "illegal file path") && len(es) > 0 && es[0].Name == "./":
-						key = "targz-dot-entry-rejected"
-					case format == "tar" && a.class == "duplicate" && ok && strings.HasPrefix(diff, "/") && vstaleTail(exp, m):
-						key = "targz-duplicate-entry-stale-tail"
+					case a.class == "wf-implicit-parents" && !ok && strings.Contains(errs, "no such file or directory"):
+						key = format + "-parent-dirs-not-created"
+					case a.class == "wf-dot-slash-root" && !ok && strings.Contains(errs, "illegal file path"):
+						key = format + "-root-entry-rejected"
+					case a.class == "duplicate" && ok && strings.HasPrefix(diff, "/") && vstaleTail(exp, m):
+						key = format + "-rewritten-file-stale-tail"
 					}
 					viol(key, "well-formed archive not reproduced exactly: ok="+strconv.FormatBool(ok)+" "+errs+" "+diff, format, a.class, destArg, es, ok, errs, tree)
 				}
